@@ -26,6 +26,8 @@ FRAGMENTS = [
     '#...meta: format=json, length=12\n', '#...diff: length=3\n',
     '#.preamble: indent=4, length=10\n', '#.meta: length=3\n', '{}\n',
     '{\n    "a": 1\n}\n', '--- a\n+++ b\n', '@@ -1 +1 @@\n', '+x\n', '-y\n',
+    '#...diff: length=11\nliteral 12\n', '#...diff:\ndelta 3\nliteral 5\nx',
+    '#...diff: length=9\n...\nliteral 1\n',
     ' z\n', '...\n', 'delta 12\n', 'literal 12\n', 'literal 5\r\n', 'delta 1\r\n', '#diffx: 1.0\n', '#.change: wip\n',
     '#..file: \n', '#', '#.', '#..', '#...', ':', ' ', '\n', '\r\n', '\r',
     'Index: foo\n', 'diff --git a b\n', '# comment\n', '#...diff:\n# HG\n',
@@ -157,6 +159,14 @@ def benign_program(program):
                 t = 'binary payload\n'
 
             t = clean(t).replace('\x00', '')
+
+            # Git binary patch vocabulary where the diff state looks for
+            # it: at the very start of the content
+            if len(t) % 5 == 0:
+                t = 'literal %d\n' % len(t) + t
+            elif len(t) % 5 == 1:
+                t = 'delta %d\n...\nliteral 7\n' % len(t) + t
+
             kw['content'] = t.encode('utf-8') or b'x\n'
 
         calls.append([op, kw])
